@@ -275,6 +275,29 @@ def gen_deque_case(rng, i):
     order = []          # live handles front to back
     nxt = 0
     lines = ["cfg kind=deque"]
+    if rng.random() < 0.35:
+        # tiny lists drained to empty (and refilled) while the cursor iterator is in use
+        n = rng.choice([6, 10, 16])
+        for _ in range(n):
+            r = rng.random()
+            if (r < 0.3 and len(order) < 3) or (not order and r < 0.6):
+                lines.append(f"PUSH {rng.randrange(1000)}")
+                order.append(nxt)
+                nxt += 1
+            elif r < 0.6 and order:
+                lines.append("POP")
+                order.pop(0)
+            elif r < 0.7 and order:
+                h = rng.choice(order)
+                lines.append(f"UNLINK {h}")
+                order.remove(h)
+            elif r < 0.75 and order:
+                lines.append("MFTB")
+                order.append(order.pop(0))
+            else:
+                lines.append("ITER")
+        lines += ["ITER", "PEEK"]
+        return (f"d{i}_deque_tiny{n}", lines)
     for _ in range(n):
         r = rng.random()
         if r < 0.35 or not order:
